@@ -96,6 +96,7 @@ type seqRule struct {
 	trackField string
 	trackAny   []string
 	loadSyms   bool
+	exprVal    func(fr *Frame, e ast.Expr) (Value, bool)
 	init       kv
 	args       []Value
 }
@@ -144,7 +145,7 @@ func (sr *seqRule) segments(root *Func) []Segment {
 		j := strings.Index(last, "~")
 		return last[:j], last[j+1:], rest
 	}
-	tr := &traceRule{c: sr.c, rule: sr.rule, noInline: sr.noInline, maxDepth: sr.maxDepth, relevant: sr.relevant, trackField: sr.trackField, trackAny: sr.trackAny, loadSyms: sr.loadSyms, args: sr.args}
+	tr := &traceRule{c: sr.c, rule: sr.rule, noInline: sr.noInline, maxDepth: sr.maxDepth, relevant: sr.relevant, trackField: sr.trackField, trackAny: sr.trackAny, loadSyms: sr.loadSyms, args: sr.args, exprVal: sr.exprVal}
 	tr.classify = sr.classify
 	tr.step = func(s kv, ev Ev) kv {
 		switch {
